@@ -53,3 +53,14 @@ func verifRoundTripState(w0 io.Writer, r0 io.Reader, x State) (y State, encErr, 
 	decErr = y.Decode(r0)
 	return y, nil, decErr
 }
+
+func verifRoundTripParams(w0 io.Writer, r0 io.Reader, x *Params) (y *Params, encErr, decErr error) {
+	encErr = x.Encode(w0)
+	if encErr != nil {
+		return nil, encErr, nil
+	}
+	verifLink(w0, r0)
+	y = new(Params)
+	decErr = y.Decode(r0)
+	return y, nil, decErr
+}
